@@ -363,7 +363,11 @@ def tf_crlf(tpl):
     return [p_.replace("\n", "\r\n") if isinstance(p_, str) else p_ for p_ in tpl]
 
 
-TRANSFORMERS = {'ends-with-last-tag': tf_eof, 'starts-with-first-tag': tf_bof, 'multi-byte-text': tf_multibyte, 'inside-skip': tf_wrap('skip'), 'inside-pending': tf_wrap('pending'),
+def tf_bom(tpl):
+    return ["\ufeff"] + list(tpl)
+
+
+TRANSFORMERS = {'byte-order-mark-first': tf_bom, 'byte-order-mark-first+starts-with-first-tag': lambda t: tf_bom(tf_bof(t) or t), 'ends-with-last-tag': tf_eof, 'starts-with-first-tag': tf_bof, 'multi-byte-text': tf_multibyte, 'inside-skip': tf_wrap('skip'), 'inside-pending': tf_wrap('pending'),
                 'inside-unregistered': tf_wrap('unregistered'), 'inside-ready-skip': tf_wrap('ready-skip'), 'quoted-attribute-noise': tf_attr_noise,
                 'cr-lf-line-ends': tf_crlf, 'cr-lf-line-ends+ends-with-last-tag': lambda t: tf_eof(tf_crlf(t)),
                 'multi-byte-text+ends-with-last-tag': lambda t: tf_eof(tf_multibyte(t)), 'multi-byte-text+starts-with-first-tag': lambda t: tf_bof(tf_multibyte(t))}
@@ -392,15 +396,15 @@ def transformed_jobs(prop, tier, seed, harness='pipe_clean', extra_params=None):
 def scale_templates():
     """concrete documents far beyond the hole templates in one dimension each; one or two small holes keep the solver in the loop"""
     T = {}
-    # 130 pending elements nested in a ready unwrap block, a pending element of the outer tag name innermost
+    # 300 pending elements nested in a ready unwrap block, a pending element of the outer tag name innermost
     deep = ["A\n", O('t', RT + ' unwrap-block'), "\n{\n"]
-    for k in range(130):
+    for k in range(300):
         deep += [O('m', PN), "\n"]
     deep += ["  ", O('t', PT), "\n  keep();\n  ", C('t'), "\n", H(1, 'txt'), "tail();\n"]
-    for k in range(130):
+    for k in range(300):
         deep += [C('m'), "\n"]
     deep += ["}\n", C('t'), "\nB\n"]
-    T['scale-nesting-depth-130'] = deep
+    T['scale-nesting-depth-300'] = deep
     # the same depth with ready elements only (every level removable)
     deep2 = ["A\n"]
     for k in range(140):
@@ -438,7 +442,7 @@ def scale_templates():
 
 def scale_jobs(prop, tier, harness='pipe_clean', extra_params=None):
     jobs = []
-    names = ['scale-nesting-depth-130', 'scale-long-line'] if tier == 'quick' else None
+    names = ['scale-nesting-depth-300', 'scale-long-line'] if tier == 'quick' else None
     for name, tpl in scale_templates().items():
         if names and name not in names:
             continue
@@ -560,6 +564,8 @@ def unwrap_doc(p):
     tpl = []
     if p.get('pre', 1):
         tpl += [g('pre_i', 'ind'), "A", g('pre_t', 'nb'), "\n"]
+    if p.get('prelude'):   # crossing elements and a stray closing tag in front: <a> <u> </a> </a>  (all unregistered names)
+        tpl += [O('a'), "\n", O('u'), "\nc\n", C('a'), "\n", C('a'), "\n"]
     for wt, wa in p.get('wrap', []):   # enclosing elements (skipped / pending / unregistered), each tag alone on its line
         tpl += [g('wrap_i', 'ind'), O(wt, wa), "\n"]
     tpl += [g('tag_i', 'ind'), O(p.get('tag', 'm'), p.get('attrs', RX + ' unwrap-block')), "\n"]
@@ -593,7 +599,7 @@ def c11_unwrap(ctx, p):
     ready, pending, allel = evaluate(src, parts, cfg)
     # k counts *lines* between the tag lines (a nested 3-line element contributes 3)
     nw = len(p.get('wrap', []))
-    o = [x for x in parts if x['kind'] == 'open'][nw]
+    o = [x for x in parts if x['kind'] == 'open'][nw + (2 if p.get('prelude') else 0)]
     c = [x for x in parts if x['kind'] == 'close'][-1 - nw]
     nlines = sum(1 for b in src[o['end']:c['start']] if isinstance(b, int) and b == 10) - 1
     ctx.cover('exactly-two-lines-between' if nlines == 2 else ('fewer-than-two-lines' if nlines < 2 else 'three-or-more-lines'))
@@ -637,6 +643,11 @@ def c11_jobs(tier, seed):
         jobs.append(dict(harness='c11_unwrap', label=f'unwrap k={k} closing tag at end of input', params=dict(k=k, post=0, final_nl=0, holes=dict(b0_t=2, ctag_i=2))))
     for tag, attrs in (('t', RT + ' unwrap-block'), ('m', PN + ' unwrap-block')):
         jobs.append(dict(harness='c11_unwrap', label=f'unwrap k=3 tag={tag} {attrs}', params=dict(k=3, tag=tag, attrs=attrs, holes=hole_sets[0])))
+    for k in (2, 3):   # crossing elements and a stray closing tag in front of the element; a wrapper line ending in a four-byte character
+        jobs.append(dict(harness='c11_unwrap', label=f'unwrap k={k} behind crossing elements and a stray closing tag', params=dict(k=k, prelude=1, holes=dict(tag_i=1, b1_i=2))))
+        jobs.append(dict(harness='c11_unwrap', label=f'unwrap k={k} behind crossing elements, inside a pending element', params=dict(k=k, prelude=1, wrap=[('t', PT)], holes=dict(b0_i=2))))
+        jobs.append(dict(harness='c11_unwrap', label=f'unwrap k={k + 1} wrapper lines end in four free bytes', params=dict(k=k + 1, holes={'b0_t': 4})))
+        jobs.append(dict(harness='c11_unwrap', label=f'unwrap k={k + 1} closing wrapper line ends in four free bytes', params=dict(k=k + 1, holes={f'b{k}_t': 4})))
     # the unwrap element nested in skipped / pending / unregistered elements (each removes nothing on its own account)
     for wrap in ([('m', SK)], [('t', PT)], [('u', '')], [('m', SK), ('t', PT)], [('t', RT + ' skip'), ('u', "x='1'")]):
         for k in (1, 3):
@@ -876,10 +887,18 @@ def c12_dedent(ctx, p):
         if e == s and s < len(src) and mask[s - 1 if s > 0 else 0] and False:
             pass
     unwraps = [e for e in ready if e['unwrap']]
+    ragged = set()   # (kept empty: since the D10 / D11 repairs the union rule below also holds when a nested tag stands left of the enclosing block's body)
     if p.get('pre', 1) == 0:
         ctx.cover('block-on-first-line')
     if len(unwraps) > 1:
         ctx.cover('nested-unwrap')
+    for u in unwraps:   # pre-pass: which nested blocks are ragged (their tag stands left of the enclosing block's body column)
+        for o_ in unwraps:
+            if o_ is not u and o_['open']['start'] < u['open']['start'] and u['close']['end'] <= o_['close']['end']:
+                ot = B.indent(lines[line_of(o_['open']['start'])][2])
+                of = B.indent(lines[line_of(o_['extents'][0][1]) + 1][2])
+                if False and B.indent(lines[line_of(u['open']['start'])][2]) < ot + max(0, of - ot):
+                    ragged.update(range(line_of(u['open']['start']), line_of(u['close']['end'] - 1) + 1))
     for u in unwraps:
         tagline = line_of(u['open']['start'])
         T = B.indent(lines[tagline][2])
@@ -893,13 +912,14 @@ def c12_dedent(ctx, p):
         if S > 0:
             ctx.cover('first-inner-deeper-than-tag')
         for o_ in unwraps:
-            # nested blocks: only regular layouts are claimed (the inner tag is indented at least as deep as the outer
-            # body, T_i >= T_o + S_o); for ragged nesting the statement does not fix how the two shifts combine
+            # nested blocks: every block removes the columns [T, T+S) of its own inner lines in original coordinates (union on a line inside both),
+            # whether the inner tag is indented at least as deep as the outer body or stands left of it
             if o_ is not u and o_['open']['start'] < u['open']['start'] and u['close']['end'] <= o_['close']['end']:
                 ot = B.indent(lines[line_of(o_['open']['start'])][2])
                 of = B.indent(lines[line_of(o_['extents'][0][1]) + 1][2])
-                if T < ot + max(0, of - ot):
-                    raise PathAbort()
+                pass
+        if tagline in ragged:
+            continue   # the lines of a raggedly nested block carry no obligation; the outer block's other lines still do
         for i in inner:
             ind = B.indent(lines[i][2])
             if ind <= T and len(B.strip(lines[i][2])) > 0:
@@ -912,6 +932,7 @@ def c12_dedent(ctx, p):
         cover_if(ctx, 'tab-indent', b_or(b_eq(b, 9) for b in src if not isinstance(b, int) and b.get_id() in B.blank_ids) if ctx.symbolic
                  else any(b == 9 for b in src))
     exp_lines = []
+    skip = []
     free = []  # whitespace-only lines: only blanks may go, amount not prescribed
     for i, (s, e, l) in enumerate(lines):
         if any(mask[k] for k in range(s, e)) or (s == e and False):
@@ -924,14 +945,16 @@ def c12_dedent(ctx, p):
             cols |= set(range(a, b))
         exp_lines.append([b for k, b in enumerate(l) if k not in cols])
         free.append(len(B.strip(l)) == 0)
+        skip.append(i in ragged)
     got = split_lines(out)
     # whitespace-only lines carry no dedent obligation (and a removed nested element may leave one behind): compare the
     # non-blank lines, in order
     got = [l for l in got if B.strip(l)]
+    skip = [sk for sk, fr in zip(skip, free) if not fr]
     exp_lines = [l for l, fr in zip(exp_lines, free) if not fr]
     if len(got) != len(exp_lines):
         raise PathAbort()  # a different set of surviving lines is C11 / C13's subject, not a dedent question
-    okv = [len(g_) == len(x) and b_and(same(a, b) for a, b in zip(g_, x)) for g_, x in zip(got, exp_lines)]
+    okv = [len(g_) == len(x) and b_and(same(a, b) for a, b in zip(g_, x)) for g_, x, sk in zip(got, exp_lines, skip) if not sk]
     ctx.check(b_and(okv), f'dedent differs: got {show_lines(got)} expected {show_lines(exp_lines)}',
               (lambda: 'unwrap-block-on-first-line-wrong-dedent' if unwraps[0]['open']['start'] > 0 and all(b != 10 for b in src[:unwraps[0]['open']['start']]) else 'dedent-mismatch'))
 
@@ -959,6 +982,11 @@ def c12_jobs(tier, seed):
                 J(f'dedent body={body} fixed={fname} holes={hs}', fixed=fx, holes=hs, body=body)
             if 'unwrap' in body or 'ready' in body:
                 J(f'dedent body={body} fixed={fname} removable element on the opening wrapper line', fixed=fx, holes=dict(b0=1, b2=2) if len(body) > 2 else dict(b0=1), body=body, w1_child=1)
+    # a nested block whose tag stands far left of the enclosing block's body (ragged nesting): the enclosing block's own lines still move uniformly
+    rag = dict(tag='    ', w1='    ', b0=' ' * 12, b1='    ', b1i=' ' * 8, b2=' ' * 12, w2='    ', ctag='    ')
+    for hs in (dict(b1k=2), dict(b1k=4, b2=1), dict(b1i=1, b1k=3, b0=1)):
+        J(f'dedent ragged nesting holes={hs}', fixed=rag, holes=hs, body=['code', 'unwrap', 'code'])
+        J(f'dedent ragged nesting, two lines behind the nested block, holes={hs}', fixed=dict(rag, b3=' ' * 12), holes=hs, body=['code', 'unwrap', 'code', 'code'])
     # lines left of the tag column whose text contains blanks in the columns the dedent removes from deeper lines
     for fname, fixed in (('nested2sp', ind_nested), ('tabs', tabs)):
         for hs in (dict(b1=1, b1p=3), dict(b1p=2, tag=1), dict(b1p=4), dict(b1=1, b1p=1, b0=1)):
@@ -981,10 +1009,10 @@ def c13_doc(p):
     hs = p['holes']
     g = lambda name, cls='ind': H(hs.get(name, 0), cls)
     tpl = []
-    if p.get('parent'):
+    for _ in range(int(p.get('parent', 0))):   # pending parents, each tag on its own line
         tpl += [O('m', PN), "\n"]
     if not p.get('first'):   # (first=1: the removed block begins on the first line of the file)
-        tpl += [g('a_i'), g('a_t', 'nb'), "" if p.get('pure') else "A", "\n"]
+        tpl += [g('a_i'), g('a_t', 'nb'), "" if p.get('pure') else "A", g('a_e'), "\n"]
     for i in range(p['b']):
         tpl += [g(f'bl{i}'), "\n"]
     tpl += [g('tag_i'), O('m', RX), "\n", g('c_i'), "x", g('c_t', 'nb'), "\n"]
@@ -1005,7 +1033,7 @@ def c13_doc(p):
     tpl += [g('z_i'), "" if p.get('pure') else "B", g('z_t', 'nb')]
     if p.get('final_nl', 1):
         tpl += ["\n"]
-    if p.get('parent'):
+    for _ in range(int(p.get('parent', 0))):
         tpl += [C('m'), "\n"]
     return tpl
 
@@ -1044,7 +1072,7 @@ def c13_block(ctx, p):
         """whitespace-only lines in the output between the k-th and (k+1)-th non-blank line"""
         idx = [i for i, l in enumerate(got_all) if B.strip(l)]
         return idx[k + 1] - idx[k] - 1
-    base_k = 1 if p.get('parent') else 0
+    base_k = int(p.get('parent', 0))
     first_next = 'M' if p.get('second') else 'B'
     exp1 = a + b - (1 if a > 0 and b > 0 else 0)
     n1 = blanks_between(base_k)
@@ -1077,12 +1105,15 @@ def c13_jobs(tier, seed):
         J(f'nested ready block b={b} a={a}', a=a, b=b, inner=1, holes=dict(tag_i=1, in_i=2, cin_i=1))
         J(f'pending parent b={b} a={a}', a=a, b=b, parent=1, holes=dict(tag_i=2, a_i=2, z_i=1))
         J(f'no final newline b={b} a={a}', a=a, b=b, final_nl=0, holes=dict(z_t=2, z_i=1, al0=1 if a else 0))
+    for depth in ((300,) if tier == 'quick' else (40, 300)):   # any depth of pending-parent nesting
+        J(f'block inside {depth} pending parents', a=1, b=1, parent=depth, holes=dict(tag_i=2, a_i=1))
     for hs in (dict(tag_i=2, ctag_i=2), dict(tag_i=1, c_i=2, z_i=1), dict(ctag_i=2, z_t=1)):   # the block begins on the first line of the file
         J(f'block on the first line holes={hs}', a=0, b=0, first=1, holes=hs)
         J(f'block on the first line, blank line behind, holes={hs}', a=1, b=0, first=1, holes=hs)
     for b in (0, 1):   # the closing tag is the last thing in the file, multi-byte text earlier
         J(f'closing tag at end of input b={b}, multi-byte text before', a=0, b=b, eof_tag=1, holes=dict(a_t=3, ctag_i=1))
         J(f'closing tag at end of input b={b}, multi-byte text inside', a=0, b=b, eof_tag=1, holes=dict(c_t=3, tag_i=1, a_t=1))
+        J(f'closing tag at end of input b={b}, blanks at the end of the last surviving line', a=0, b=b, eof_tag=1, holes=dict(a_e=2, ctag_i=1))
     return jobs
 
 
